@@ -5,7 +5,7 @@ from engine.locks import LockFlow
 LEVEL = "other"
 MIN_OBLIGATIONS = 24
 THOROUGH_CONFIGS = ("headeronly",)
-TECHNIQUE = "must-call rules (destructor, aboutToQuit connection), lockset + dominance on resetOwnThread (drain loop exit dominates quit, lock held from the final test through quit/wait/clear), writer and reader enumeration of m_worker, loop-boundedness rule on the stop path; stale-state rule after relock (CFG projection on m_thread == null from the entry and every relock point), single-writer rule for the pending count, ownership of the global logger; re-entrancy rule (the stop is never called with the other side's lock held; accessors a running handler may call take no lock); thread affinity of the quit hook's context object; the stop path never changes Qt's message handler; condition-variable drain waits release the mutex, wake-one with several possible sleepers is definite"
+TECHNIQUE = "must-call rules (destructor, aboutToQuit connection), lockset + dominance on resetOwnThread (drain loop exit dominates quit, lock held from the final test through quit/wait/clear), writer and reader enumeration of m_worker, loop-boundedness rule on the stop path; stale-state rule after relock (CFG projection on m_thread == null from the entry and every relock point), single-writer rule for the pending count, ownership of the global logger; re-entrancy rule (the stop is never called with the other side's lock held; accessors a running handler may call take no lock); thread affinity of the quit hook's context object; the stop path never changes Qt's message handler; condition-variable drain waits release the mutex, wake-one with several possible sleepers is definite; the pending counter the drain waits for is exact (hand-off structure rules shared with C03: one post and one increment per message, one handler run and one decrement per event); who-may-call rule on resetOwnThread (destructor and aboutToQuit hook only)"
 LEVEL_TEXT = ("Decides the structural necessary conditions of a draining, terminating stop for all shutdown paths: the destructor and the aboutToQuit connection reach resetOwnThread(); the thread is told to quit "
               "only after a loop that exits when the pending count is <= 0, evaluated under the handler mutex that stays held through quit(), wait and clearing the worker (no window to post to a stopping worker); "
               "without a worker process() runs the handler synchronously; the worker pointer is written only by move (set) and reset (clear after wait) and read only under the mutex; the worker is deleted only "
